@@ -53,6 +53,8 @@ def blur_case(draw, tier):
     fn = draw(st.sampled_from(["pixel", "jitter", "smear"]))
     os_ = draw(st.integers(1, 5))
     ext = draw(st.sampled_from([0.0, 0.3, 1.0, 2.5, 6.0])) if draw(st.booleans()) else draw(gen.finite(0.0, 6.0))
+    if kind != "int_counts":
+        img = img * draw(gen.scales())
     return {"layout": draw(gen.layouts()), "img": img, "kind": kind, "fn": fn, "oversample": os_, "extent": ext,
             "angle": draw(st.sampled_from([0, 90, 45.0, 180, 270, 30.0])) if draw(st.booleans()) else draw(gen.finite(0.0, 360.0)),
             "pixelscale": draw(gen.pos_log(1e-6, 1e-4)), "roll": [draw(st.integers(-30, 30)), draw(st.integers(-30, 30))],
